@@ -5,7 +5,7 @@ P/K: the bytes produced by the C encoders are compared with the Lean reference e
 `L2.Resolve` per X.680 §31) and the C decoders with the reference decoders."""
 import collections
 from .. import build, core, genmod, bundle, gfind, l2k
-from . import c01, l1per, c02_oer
+from . import c01, l1per, c02_oer, c02_uper
 
 def der_skip(syn, t, env, tagdefault):
     feats = gfind.features(t, env, tagdefault=tagdefault)
@@ -46,6 +46,8 @@ def run(ctx):
         ctx.violation(f"C02: C {d['syntax']} {d['stage']} differs from the reference for type {d['type']}: {d['op'][:160]} C={d['c'][:100]} ref={d['model'][:100]}",
                       {"module": d["module"], "type": d["type"], "op": d["op"], "c_output": d["c"], "reference": d["model"], "syntax": d["syntax"]})
     ctx.log("C02 DER:", dict(allst), "skipped", dict(skipped))
+    # UPER: reference codec (L2.Uper, written from X.691, proved to round-trip) vs C
+    c02_uper.run_uper(ctx)
     # OER: reference codec (L2.Oer, written from X.696, proved to round-trip) vs C
     c02_oer.run_oer(ctx)
     # L1 PER/OER primitives: C functions vs Impl models vs X.691/X.696 oracle
